@@ -24,7 +24,15 @@ RULE = ("seeded random shot lists (repetitions, idle qubits, single shot, all-eq
         "differ from it in exactly one position just below / at / above 8, 16, 32, 53, 63, 64, 128 or in the first / last "
         "position, unequal multiplicities, terms / marked qubits on exactly those positions, a shot overwritten by its "
         "sibling on one Measurements object - all judged with tolerances proportional to |coefficient| resp. |c_i c_j|/denominator, never "
-        "absolute; distinct = distinct canonical JSON of the case")
+        "absolute; every call is repeated on the very same objects (ev: other flag, first flag again) and judged again, what a "
+        "call handed out is overwritten and must stay overwritten; twin histories (object born from a list / from_counts / "
+        "add_counts; same multiset rotated, two multiplicities exchanged, one outcome renamed, one bit exchanged between two "
+        "shots, wider shots; the caller's PauliSum edited in place: coefficient moved by 2^-24, term appended / removed / two "
+        "exchanged; twin operator objects); shapes and forms: 64..130 terms, 64..300 distinct outcomes, exactly one term as "
+        "PauliTerm and as PauliSum, constant-only operators, python-int and numpy-scalar coefficients, terms equal up to 2^-24 "
+        "/ below 1e-8 / identical on one support, histograms as Counter / OrderedDict / numpy counts, marked qubits as tuple "
+        "/ set / frozenset, boolean bits; second route: expectation values from the parity tallies; "
+        "distinct = distinct canonical JSON of the case")
 TRUSTED = [
     "numpy integer/float array arithmetic (sum, *, /, %, fancy indexing, reshape, 1-d broadcasting) computes the "
     "element-wise real-number operations up to double rounding (model compared within 1e-12 of the natural scale of each "
@@ -152,6 +160,39 @@ def corpus():
          "terms": [_t(2, z(65)), _t(-1, z(64)), _t(1, z(64, 65))]},
         {"kind": "freq", "marked": [64], "freq": [["0" * 65, 5], ["0" * 64 + "1", 2], ["1" + "0" * 64, 1]]},
         {"kind": "parity_vec", "rows": ["0" * 130, "0" * 128 + "10", "0" * 129 + "1", "1" + "0" * 129], "marked": [128, 129]},
+        # ---- twins on one object: born from from_counts, then the same multiset rotated, two multiplicities exchanged, one
+        #      outcome renamed, one bit exchanged between two shots; the caller's operator edited in place
+        {"kind": "history", "init": [["01", "11", "01", "00", "01", "11"]], "init_via": ["from_counts"],
+         "operators": [[_t(2, z(0)), _t(-1, z(0, 1)), _t(3, [])], [_t(2 + Fraction(1, 2 ** 23), z(0)), _t(-1 - Fraction(1, 2 ** 24), z(0, 1)), _t(3, [])]],
+         "steps": [{"do": "counts"}, {"do": "ev", "op": 0, "bessel": False}, {"do": "ev", "op": 1, "bessel": False}, {"do": "parities", "op": 0},
+                   {"do": "assign", "shots": ["11", "11", "00", "01", "01", "01"]}, {"do": "counts"}, {"do": "dist"}, {"do": "ev", "op": 0, "bessel": True},
+                   {"do": "assign", "shots": ["01", "01", "00", "11", "11", "11"]}, {"do": "counts"}, {"do": "dist"}, {"do": "ev", "op": 0, "bessel": False},
+                   {"do": "assign", "shots": ["01", "01", "10", "11", "11", "11"]}, {"do": "counts"}, {"do": "parities", "op": 0}, {"do": "ev", "op": 0, "bessel": False},
+                   {"do": "assign", "shots": ["00", "01", "10", "11", "11", "11"]}, {"do": "counts"}, {"do": "dist"}, {"do": "ev", "op": 0, "bessel": False},
+                   {"do": "op_coeff", "op": 0, "term": 0, "coeff": rat(2 + Fraction(1, 2 ** 23))}, {"do": "ev", "op": 0, "bessel": False},
+                   {"do": "op_append", "op": 0, "new": _t(5, z(1))}, {"do": "ev", "op": 0, "bessel": False}, {"do": "parities", "op": 0},
+                   {"do": "op_swap", "op": 0, "i": 0, "j": 3}, {"do": "ev", "op": 0, "bessel": True},
+                   {"do": "op_pop", "op": 0, "term": 1}, {"do": "ev", "op": 0, "bessel": False}, {"do": "parities", "op": 0},
+                   {"do": "add_counts", "counts": [["10", 2], ["00", 1]], "counts_as": "np"}, {"do": "counts"}, {"do": "ev", "op": 0, "bessel": False}]},
+        {"kind": "history", "init": [["0", "1", "1"]], "init_via": ["add_counts"], "operators": [[_t(1, z(0))]],
+         "steps": [{"do": "counts"}, {"do": "extend", "shots": ["0", "0"]}, {"do": "counts"}, {"do": "dist"}, {"do": "ev", "op": 0, "bessel": False},
+                   {"do": "setitem", "index": 1, "shot": "0"}, {"do": "counts"}, {"do": "ev", "op": 0, "bessel": True}]},
+        # ---- special shapes and forms: one term as PauliTerm / PauliSum, constants only, integer and numpy coefficients,
+        #      terms that are equal up to every tolerance, histograms as Counter / numpy counts, marked qubits as tuple / frozenset
+        {"kind": "ev", "shots": ["01", "11", "01"], "bessel": True, "exact": False, "terms": [_t(Fraction(3, 2), z(0, 1))], "single": True},
+        {"kind": "ev", "shots": ["01", "11", "01"], "bessel": True, "exact": False, "terms": [_t(Fraction(3, 2), z(0, 1))], "single": False},
+        {"kind": "ev", "shots": ["01", "11", "00"], "bessel": False, "exact": False, "terms": [_t(2, []), _t(-3, []), _t(0, [])]},
+        {"kind": "ev", "shots": ["01", "11", "00"], "bessel": True, "exact": False, "coef": "int", "terms": [_t(2, z(0)), _t(-3, z(1)), _t(5, z(0, 1)), _t(1, [])]},
+        {"kind": "ev", "shots": ["01", "11", "00"], "bessel": False, "exact": False, "coef": "np", "terms": [_t(2, z(0)), _t(Fraction(1, 2), z(1))]},
+        {"kind": "ev", "shots": ["01", "11", "00", "01", "10"], "bessel": False, "exact": False,
+         "terms": [_t(2, z(0)), _t(2 + Fraction(1, 2 ** 23), z(0)), _t(Fraction(1, 2 ** 32), z(1)), _t(Fraction(3, 2 ** 32), z(1)), _t(2, z(0))]},
+        {"kind": "add_counts", "shots": ["01"], "counts": [["01", 2], ["10", 3]], "counts_as": "np"},
+        {"kind": "add_counts", "shots": [], "counts": [["01", 2], ["10", 3], ["11", 0]], "counts_as": "Counter"},
+        {"kind": "freq", "marked": [1, 0], "freq": [["01", 2], ["11", 1], ["10", 4]], "freq_as": "Counter", "marked_as": "tuple"},
+        {"kind": "freq", "marked": [0], "freq": [["01", 2], ["11", 1]], "freq_as": "np", "marked_as": "frozenset"},
+        # ---- bits that are booleans (True == 1): the unchanged library keys the histogram 'TrueFalse' (known finding)
+        {"kind": "bool_bits", "shots": ["10", "00", "10"]},
+        {"kind": "bool_bits", "shots": ["1", "0"], "numpy": True},
         # ---- one Measurements object asked for the same operator at three magnitudes
         {"kind": "history", "init": [["00", "01", "11", "01", "10"]],
          "operators": [[_t(2, z(0)), _t(-1, z(0, 1))], [_t(Fraction(2, 2 ** 40), z(0)), _t(Fraction(-1, 2 ** 40), z(0, 1))],
@@ -451,6 +492,225 @@ def _boundary_siblings(rng, big):
     return cases
 
 
+def _twin_history(rng, big):
+    """ONE Measurements object (born from a list, from from_counts, or empty + add_counts) and ONE operator object, changed
+    between the queries into a TWIN of what they were: the same multiset in another order, the same outcomes with two
+    multiplicities exchanged, the same multiplicities with one outcome renamed, one bit exchanged between two shots (every
+    column keeps its sum, length / first / last shot stay), wider shots, a coefficient that moves by 2^-24 of itself, a term
+    appended / removed / two terms exchanged in the caller's PauliSum - every statistic again after each change"""
+    w = rng.randrange(2, 7)
+    n = rng.randrange(4, 20 if big else 13)
+    via = rng.choice(["list", "list", "from_counts", "add_counts"])
+    c = {"kind": "history", "init": [_shots(rng, w, n)], "init_via": [via], "operators": [], "steps": []}
+    if rng.random() < 0.4:
+        c["coef"] = rng.choice(["complex", "str", "arith"])
+    base = _terms(rng, w, rng.randrange(2, 5), True)
+    for t in base:
+        if unrat(t["coeff"]) == 0:
+            t["coeff"] = 1
+    c["operators"].append(base)
+    if rng.random() < 0.5:  # a twin operator object: every coefficient larger by 2^-24 of itself
+        c["operators"].append([{"coeff": rat(unrat(t["coeff"]) * (1 + Fraction(1, 2 ** 24))), "ops": t["ops"]} for t in base])
+    cur = _init_shots(c, 0)
+    ops_now = [[dict(t) for t in terms] for terms in c["operators"]]
+    steps = c["steps"]
+
+    def queries(all_ops=False):
+        kinds = ["counts", "dist", "ev", "parities"]
+        rng.shuffle(kinds)
+        for kind in kinds:
+            for op in (range(len(ops_now)) if (all_ops and kind == "ev") else [0]):
+                st = {"do": kind}
+                if kind in ("ev", "parities"):
+                    st["op"] = op
+                if kind == "ev":
+                    st["bessel"] = rng.random() < 0.4
+                steps.append(st)
+
+    def new_outcome(width):
+        for _ in range(20):
+            b = format(rng.randrange(2 ** width), f"0{width}b")
+            if b not in cur:
+                return b
+        return None
+
+    queries(all_ops=True)
+    for _ in range(rng.randrange(3, 6)):
+        cnt = Counter(cur)
+        r = rng.randrange(13)
+        st = None
+        if r == 0:  # same multiset, other order
+            k = rng.randrange(1, len(cur))
+            st = {"do": "assign", "shots": cur[k:] + cur[:k] if rng.random() < 0.6 else cur[::-1]}
+        elif r == 1 and len(set(cnt.values())) > 1:  # same outcomes, two multiplicities exchanged
+            a, b = rng.sample(list(cnt), 2)
+            for _ in range(10):
+                if cnt[a] != cnt[b]:
+                    break
+                a, b = rng.sample(list(cnt), 2)
+            sw = {a: b, b: a}
+            st = {"do": rng.choice(["assign", "replace"]), "shots": [sw.get(x, x) for x in cur]}
+        elif r == 2:  # same multiplicities in the same order, one outcome renamed
+            a, b = rng.choice(list(cnt)), new_outcome(len(cur[0]))
+            if b is not None:
+                st = {"do": rng.choice(["assign", "replace"]), "shots": [b if x == a else x for x in cur]}
+        elif r in (3, 4):  # one bit exchanged between two shots: all column sums, the length, (mostly) the ends stay
+            for _ in range(20):
+                i, j = rng.sample(range(len(cur)), 2)
+                q = rng.randrange(len(cur[0]))
+                if cur[i][q] != cur[j][q] and _flip(cur[i], q) != cur[j]:
+                    new = list(cur)
+                    new[i], new[j] = _flip(cur[i], q), _flip(cur[j], q)
+                    st = {"do": "assign", "shots": new}
+                    break
+        elif r == 5:  # wider shots for the same operator objects
+            extra = rng.randrange(1, 4)
+            st = {"do": "replace", "shots": [x + format(rng.randrange(2 ** extra), f"0{extra}b") for x in cur]}
+        elif r == 6:
+            i = rng.randrange(len(ops_now[0]))
+            f = rng.choice([1 + Fraction(1, 2 ** 24), 1 - Fraction(1, 2 ** 30), Fraction(-1), Fraction(3, 2)])
+            st = {"do": "op_coeff", "op": 0, "term": i, "coeff": rat(unrat(ops_now[0][i]["coeff"]) * f)}
+        elif r == 7:
+            width = len(cur[0])
+            new = {"coeff": rat(_dyadic(rng) or Fraction(1)), "ops": [[q, "Z"] for q in rng.sample(range(width), rng.randrange(0, min(width, 3) + 1))]}
+            st = {"do": "op_append", "op": 0, "new": new}
+        elif r == 8 and len(ops_now[0]) > 1:
+            st = {"do": "op_pop", "op": 0, "term": rng.randrange(len(ops_now[0]))}
+        elif r == 9 and len(ops_now[0]) > 1:
+            i, j = rng.sample(range(len(ops_now[0])), 2)
+            st = {"do": "op_swap", "op": 0, "i": i, "j": j}
+        elif r == 10:
+            keys = list(dict.fromkeys(rng.sample(cur, min(len(cur), 2)) + [format(rng.randrange(2 ** len(cur[0])), f"0{len(cur[0])}b")]))
+            st = {"do": "add_counts", "counts": [[kk, rng.randrange(1, 4)] for kk in keys], "counts_as": rng.choice(["Counter", "np", "OrderedDict", None])}
+        elif r == 11 and len(cur) > 2:  # fewer shots, in place
+            st = {"do": "swap", "drop": rng.randrange(1, len(cur) - 1), "shots": []}
+        elif r == 12:  # more shots, in place
+            st = {"do": "extend", "shots": [rng.choice(cur) for _ in range(rng.randrange(1, 4))]}
+        if st is None:
+            i = rng.randrange(len(cur))
+            st = {"do": "setitem", "index": i, "shot": _flip(cur[i], rng.randrange(len(cur[0])))}
+        steps.append(st)
+        if st["do"] in OP_STEPS:
+            ops_now[0] = _apply_op(ops_now[0], st)
+        else:
+            cur = _apply(cur, st)
+        queries(all_ops=rng.random() < 0.3)
+    return c
+
+
+def _forms(rng, big):
+    """special SHAPES and FORMS of legal input, each next to its ordinary sibling: >= 64 terms, >= 64 distinct outcomes,
+    exactly one term (as PauliTerm and as PauliSum), constant-only operators, all-integer / numpy-scalar coefficients,
+    nearly equal and identical terms in one sum, histograms as Counter / OrderedDict / with numpy counts, marked qubits as
+    tuple / set / frozenset"""
+    cases = []
+    # -- many terms (correlation matrix >= 64 x 64)
+    for nt in ([64, 65, 70, 130] if big else [64, 67]):
+        w = rng.randrange(7, 11)
+        terms = _terms(rng, w, nt, True)
+        shots = _shots(rng, w, rng.choice([3, 8, 17]))
+        cases.append({"kind": "ev", "shots": shots, "terms": terms, "bessel": rng.random() < 0.5, "exact": False})
+        cases.append({"kind": "parities", "shots": shots, "terms": terms})
+    # -- many distinct outcomes
+    for K in ([64, 65, 100, 257, 300] if big else [65, 130, 257]):
+        w = rng.randrange(9, 13)
+        outs = [format(x, f"0{w}b") for x in rng.sample(range(2 ** w), K)]
+        shots = [o for o in outs for _ in range(rng.choice([1, 1, 2, 3]))]
+        rng.shuffle(shots)
+        terms = _terms(rng, w, rng.randrange(2, 5), True)
+        cases.append({"kind": "ev", "shots": shots, "terms": terms, "bessel": rng.random() < 0.5, "exact": False})
+        cases.append({"kind": "parities", "shots": shots, "terms": terms})
+        cases.append({"kind": "counts", "shots": shots})
+        cases.append({"kind": "dist", "shots": shots})
+        cases.append({"kind": "add_counts", "shots": shots[:2], "counts": [[o, rng.randrange(1, 4)] for o in outs]})
+        big_w = rng.choice([0, 10 ** 9, 2 ** 40, 2 ** 50])
+        cases.append({"kind": "freq", "marked": rng.sample(range(w), rng.randrange(1, 5)), "freq": [[o, rng.randrange(1, big_w) if big_w else rng.randrange(1, 9)] for o in outs],
+                      "marked_as": rng.choice(["tuple", "frozenset", "set", "list"])})
+        cases.append({"kind": "parity_vec", "rows": outs, "marked": rng.sample(range(w), rng.randrange(1, w + 1))})
+    # -- exactly one term, handed over as a PauliTerm and as a one-term PauliSum; both flags
+    for i in range(24 if big else 8):
+        w = rng.randrange(1, 7)
+        k = rng.choice([0, 1, 1, 2, 3, w]) if w > 1 else rng.choice([0, 1])
+        term = {"coeff": rat(_dyadic(rng) or Fraction(3, 2)), "ops": [[q, "Z"] for q in rng.sample(range(w), min(k, w))]}
+        shots = _shots(rng, w, rng.choice([1, 2, 3, 7, 12]))
+        for single in (True, False):
+            cases.append({"kind": "ev", "shots": shots, "terms": [term], "bessel": len(shots) > 1 and i % 2 == 0, "exact": False, "single": single})
+        cases.append({"kind": "parities", "shots": shots, "terms": [term], "single": i % 2 == 0})
+    # -- constant-only operators (one, two, three constants; zero among them)
+    for i in range(12 if big else 5):
+        w = rng.randrange(1, 6)
+        terms = [{"coeff": rat(rng.choice([_dyadic(rng), Fraction(0), Fraction(5, 2)])), "ops": []} for _ in range(rng.randrange(1, 4))]
+        shots = _shots(rng, w, rng.choice([1, 2, 5, 9]))
+        cases.append({"kind": "ev", "shots": shots, "terms": terms, "bessel": len(shots) > 1 and rng.random() < 0.5, "exact": False,
+                      "single": len(terms) == 1 and rng.random() < 0.5})
+        cases.append({"kind": "parities", "shots": shots, "terms": terms})
+    # -- coefficient objects: python ints only, numpy scalars; shot numbers that make the means non-integers
+    for i in range(40 if big else 12):
+        w = rng.randrange(1, 6)
+        nt = rng.randrange(1, 5)
+        terms = _terms(rng, w, nt, True)
+        for t in terms:
+            t["coeff"] = rng.randrange(-9, 10) if i % 2 == 0 else rat(_dyadic(rng))
+        shots = _shots(rng, w, rng.choice([3, 5, 6, 7, 11]))
+        cases.append({"kind": "ev", "shots": shots, "terms": terms, "bessel": rng.random() < 0.4, "exact": False,
+                      "coef": "int" if i % 4 < 2 else "np"})
+    # -- operators as users build them: parsed from text, multiplied together, complex-typed real coefficients
+    for i in range(60 if big else 21):
+        w = rng.randrange(1, 7) if i % 5 else rng.randrange(9, 14)
+        terms = _terms(rng, w, rng.randrange(1, 6), i % 2 == 0)
+        if i % 7 == 0:
+            terms = _rescale(rng, terms, "dec")[0]
+        shots = _shots(rng, w, rng.choice([1, 2, 3, 7, 16, 29]))
+        form = ["complex", "str", "arith"][i % 3]
+        cases.append({"kind": "ev", "shots": shots, "terms": terms, "bessel": len(shots) > 1 and rng.random() < 0.4, "exact": False, "coef": form,
+                      "single": len(terms) == 1 and rng.random() < 0.5})
+        if i % 3 == 0:
+            cases.append({"kind": "parities", "shots": shots, "terms": terms, "coef": form})
+    # -- nearly equal / identical / tiny terms on one support in one sum (equal up to every tolerance the library has)
+    for i in range(30 if big else 10):
+        w = rng.randrange(1, 6)
+        sup = [[q, "Z"] for q in rng.sample(range(w), rng.randrange(0, min(w, 3) + 1))]
+        c0 = _dyadic(rng) or Fraction(1)
+        style = i % 5
+        if style == 0:
+            twins = [c0, c0 * (1 + Fraction(1, 2 ** 24))]
+        elif style == 1:
+            twins = [c0, c0 + Fraction(1, 2 ** 40), c0]
+        elif style == 2:
+            twins = [Fraction(1, 2 ** 32), Fraction(3, 2 ** 32), Fraction(-1, 2 ** 34)]  # all "zero" for allclose / round(c * 1e6)
+        elif style == 3:
+            twins = [c0, c0, c0]
+        else:
+            twins = [c0, -c0, c0 * (1 - Fraction(1, 2 ** 30))]
+        terms = [{"coeff": rat(x), "ops": [list(o) for o in sup]} for x in twins] + _terms(rng, w, rng.randrange(0, 3), True)
+        rng.shuffle(terms)
+        shots = _shots(rng, w, rng.choice([2, 3, 5, 8]))
+        cases.append({"kind": "ev", "shots": shots, "terms": terms, "bessel": rng.random() < 0.3, "exact": False})
+    # -- reshape twins, one after the other in this process: the same stream of bits cut into rows of another width,
+    #    the same marked qubits (whatever is remembered per content must also know the width)
+    for i in range(12 if big else 4):
+        w1, w2 = rng.choice([(2, 3), (3, 2), (2, 4), (4, 2), (3, 6), (6, 3), (4, 6)])
+        total = w1 * w2 * rng.randrange(1, 3)
+        stream = "".join(rng.choice("01") for _ in range(total))
+        marked = rng.sample(range(min(w1, w2)), rng.randrange(1, min(w1, w2) + 1))
+        for w in (w1, w2):
+            rows = [stream[k:k + w] for k in range(0, total, w)]
+            cases.append({"kind": "parity_vec", "rows": rows, "marked": marked})
+            keys = list(dict.fromkeys(rows))
+            cases.append({"kind": "freq", "marked": marked, "freq": [[kk, 1 + j] for j, kk in enumerate(keys)]})
+            cases.append({"kind": "parities", "shots": rows, "terms": [{"coeff": 1, "ops": [[q, "Z"] for q in marked]}, {"coeff": 2, "ops": [[marked[0], "Z"]]}]})
+    # -- the histogram / the marked qubits in the forms a caller may hold them
+    for i in range(30 if big else 10):
+        w = rng.randrange(1, 7)
+        keys = list(dict.fromkeys(_shots(rng, w, rng.randrange(1, 6))))
+        pairs = [[kk, rng.randrange(1, 6)] for kk in keys]
+        form = ["Counter", "np", "OrderedDict"][i % 3]
+        cases.append({"kind": "add_counts", "shots": _shots(rng, w, rng.randrange(0, 3)), "counts": pairs, "counts_as": form})
+        cases.append({"kind": "freq", "marked": rng.sample(range(w), rng.randrange(0, w + 1)), "freq": pairs, "freq_as": form,
+                      "marked_as": ["tuple", "frozenset", "set", "list"][i % 4]})
+    return cases
+
+
 def generate(rng, tier):
     big = tier == "thorough"
     maxw, maxn, maxt = (8, 200, 7) if big else (6, 60, 5)
@@ -555,6 +815,11 @@ def generate(rng, tier):
     cases += _magnitudes(_random.Random(rng.getrandbits(64)), big)
     # ---- wide registers x nearly equal outcomes (differences only beyond / only before a position boundary)
     cases += _boundary_siblings(_random.Random(rng.getrandbits(64)), big)
+    # ---- twins on ONE Measurements / operator object; special shapes and forms of legal input
+    r3 = _random.Random(rng.getrandbits(64))
+    for i in range(120 if big else 30):
+        cases.append(_twin_history(r3, big))
+    cases += _forms(_random.Random(rng.getrandbits(64)), big)
     return cases
 
 
@@ -633,9 +898,10 @@ def _freq_history(rng):
     cur = dict(map(tuple, freq))
     steps = []
     for _ in range(rng.randrange(2, 5)):
-        steps.append({"do": "query", "marked": rng.sample(range(w), rng.randrange(0, w + 1)), "as_set": rng.random() < 0.5})
+        steps.append({"do": "query", "marked": rng.sample(range(w), rng.randrange(0, w + 1)), "as_set": rng.random() < 0.5,
+                      "marked_as": rng.choice([None, None, "tuple", "frozenset"])})
         r = rng.random()
-        if r < 0.5:  # same keys, same number of entries, other frequencies
+        if r < 0.45:  # same keys, same number of entries, other frequencies
             k = rng.choice(list(cur))
             cur[k] = cur[k] + rng.randrange(1, 30)
             steps.append({"do": "set", "key": k, "value": cur[k]})
@@ -643,10 +909,21 @@ def _freq_history(rng):
             k = format(rng.randrange(2 ** w), f"0{w}b")
             cur[k] = rng.randrange(1, 20)
             steps.append({"do": "set", "key": k, "value": cur[k]})
-        elif r < 0.85 and len(cur) > 1:
+        elif r < 0.8 and len(cur) > 1:
             k = rng.choice(list(cur))
             del cur[k]
             steps.append({"do": "del", "key": k})
+        elif r < 0.88:  # same weights in the same order, one outcome renamed
+            k = rng.choice(list(cur))
+            new = format(rng.randrange(2 ** w), f"0{w}b")
+            if new not in cur:
+                cur = {(new if kk == k else kk): v for kk, v in cur.items()}
+                steps.append({"do": "rekey", "key": k, "new": new})
+        elif r < 0.94 and len(set(cur.values())) > 1:  # same outcomes, two weights exchanged
+            a, b = rng.sample(list(cur), 2)
+            if cur[a] != cur[b]:
+                cur[a], cur[b] = cur[b], cur[a]
+                steps.append({"do": "swap_values", "a": a, "b": b})
         else:
             steps.append({"do": "copy"})
     steps.append({"do": "query", "marked": rng.sample(range(w), rng.randrange(0, w + 1)), "as_set": False})
@@ -677,7 +954,7 @@ def nontrivial(c):
         for st in c["steps"]:
             if st["do"] in QUERIES:
                 seen_q = True
-            elif seen_q and st["do"] in ("replace", "setitem", "swap", "new"):
+            elif seen_q and st["do"] in ("replace", "setitem", "swap", "new", "assign") + OP_STEPS:
                 return True
         return False
     if k in ("freq_history", "pv_history"):
@@ -740,12 +1017,41 @@ def _cnum(z):
     return [rat(Fraction(z.real)), rat(Fraction(z.imag))]
 
 
+def _coef_value(f, exact, form):
+    """the Python object handed to PauliTerm as coefficient: float (default), python int for integers ("exact" cases and
+    form "int"), numpy scalars (form "np")"""
+    if form == "np":
+        np = _mods()[0]
+        return np.int64(int(f)) if (f.denominator == 1 and abs(f) < 2 ** 62) else np.float64(float(f))
+    if f.denominator == 1 and (exact or form == "int"):
+        return int(f)
+    return float(f)
+
+
 def _operator(c, PauliSum, PauliTerm):
+    """the operator in the form the case asks for: PauliTerm objects with float / int / numpy / complex-typed coefficients
+    ("coef"), every term written as text and parsed ("str"), or built by multiplying one-qubit terms and a number ("arith":
+    the library then stores a complex coefficient and the qubits in the order of the factors)"""
+    form = c.get("coef")
     ts = []
     for t in c["terms"]:
         f = unrat(t["coeff"])
-        coef = int(f) if (f.denominator == 1 and c.get("exact")) else float(f)
-        ts.append(PauliTerm({int(q): l for q, l in t["ops"]}, coef))
+        ops = [(int(q), l) for q, l in t["ops"]]
+        text = repr(float(f)) + "*" + ("*".join(f"{l}{q}" for q, l in ops) if ops else "I0")
+        if form == "str" and "+" not in text and "inf" not in text:
+            term = PauliTerm(text)
+        elif form == "arith" and all(l == "Z" for _, l in ops):
+            term = PauliTerm("I0", 1.0)
+            for q, l in ops:
+                term = term * PauliTerm({q: l})
+            term = term * float(f)
+            if not isinstance(term, PauliTerm):  # a product of two terms is a term; anything else is not what we want to test
+                term = PauliTerm(dict(ops), complex(float(f), 0.0))
+        elif form in ("complex", "str", "arith"):
+            term = PauliTerm(dict(ops), complex(float(f), 0.0))
+        else:
+            term = PauliTerm(dict(ops), _coef_value(f, c.get("exact"), form))
+        ts.append(term)
     if c.get("single") and len(ts) == 1:
         return ts[0]
     return PauliSum(ts)
@@ -767,19 +1073,54 @@ def _guard(fn):
         return {"err": "err:runtime", "msg": str(e)[:100]}
 
 
-def _poison_arrays(arrs):
-    """overwrite what a call handed out: a later call must not hand the same storage out again"""
-    for a in arrs:
+POISON = 123456.0
+
+
+class _Held:
+    """everything a call handed out is overwritten right after it was read (a later call must not hand the same storage
+    out again) and remembered: a later call must not write into it either (an earlier report stays what it was)"""
+
+    def __init__(self):
+        self.arrays = []
+        self.dicts = []
+        self.ok = True
+
+    def check(self):
+        """called right after a library call, before its own results are overwritten"""
+        if not self.intact():
+            self.ok = False
+
+    def poison_arrays(self, arrs):
+        for a in arrs:
+            try:
+                a.fill(POISON)
+                self.arrays.append(a)
+            except Exception:
+                pass
+
+    def poison_dict(self, d, bump):
         try:
-            a.fill(123456.0)
+            for kk in list(d):
+                d[kk] = bump(d[kk])
+            self.dicts.append((d, dict(d)))
         except Exception:
             pass
 
+    def intact(self):
+        for a in self.arrays:
+            try:
+                if not bool((a == POISON).all()):
+                    return False
+            except Exception:
+                return False
+        return all(d == snap and list(d) == list(snap) for d, snap in self.dicts)
 
-def _obs_ev(m, op, bessel):
+
+def _ev_once(m, op, bessel, held):
     np = _mods()[0]
     before = list(m.bitstrings)
     ev = m.get_expectation_values(op, bessel)
+    held.check()
     vals = np.asarray(ev.values)
     out = {"values": [_cnum(v) for v in vals.tolist()] if vals.size else [],
            "n_corr": len(ev.correlations), "n_cov": len(ev.estimator_covariances),
@@ -788,52 +1129,118 @@ def _obs_ev(m, op, bessel):
            "shape": [list(vals.shape), list(np.asarray(ev.correlations[0]).shape),
                      list(np.asarray(ev.estimator_covariances[0]).shape)],
            "shots_intact": before == m.bitstrings}
-    _poison_arrays([ev.values] + list(ev.correlations) + list(ev.estimator_covariances))
+    held.poison_arrays([ev.values] + list(ev.correlations) + list(ev.estimator_covariances))
     return out
 
 
-def _obs_parities(measurements, op):
-    """`measurements` is passed as the very list object the caller holds"""
+def _obs_ev(m, op, bessel, held=None):
+    """the call, then the same objects again with the other flag, then with the first flag once more"""
+    held = held if held is not None else _Held()
+    out = _ev_once(m, op, bessel, held)
+    if 2 <= len(m.bitstrings) <= 40000:
+        out["again"] = []
+        for b in (not bessel, bessel):
+            o = _ev_once(m, op, b, held)
+            o["bessel"] = b
+            out["again"].append(o)
+    out["earlier_intact"] = held.ok and held.intact()
+    return out
+
+
+def _parities_once(measurements, op, held):
     np, _, _, pp, _, _ = _mods()
+    from orquestra.quantum.measurements import expectation_values as evm
     before = list(measurements)
     p = pp.get_parities_from_measurements(measurements, op)
+    held.check()
     vals = np.asarray(p.values)
     out = {"values": [[_num(a), _num(b)] for a, b in vals.tolist()] if vals.size else [],
            "n_corr": len(p.correlations),
            "correlations": [[[_num(a), _num(b)] for a, b in row] for row in np.asarray(p.correlations[0]).tolist()],
            "measurements_intact": before == list(measurements)}
-    _poison_arrays([p.values] + list(p.correlations))
+    # the second route to the same means: expectation values from the tallies, (even - odd) / (even + odd)
+    try:
+        with warnings.catch_warnings():
+            warnings.simplefilter("ignore")
+            route = evm.get_expectation_values_from_parities(p)
+        out["route"] = [_num(v) for v in np.asarray(route.values).tolist()]
+    except ValueError as e:
+        out["route_err"] = str(e)[:80]
+    held.poison_arrays([p.values] + list(p.correlations))
     return out
 
 
-def _obs_counts(m):
+def _obs_parities(measurements, op, held=None):
+    """`measurements` is passed as the very list object the caller holds; asked twice"""
+    held = held if held is not None else _Held()
+    out = _parities_once(measurements, op, held)
+    if len(measurements) <= 40000:
+        out["again"] = [_parities_once(measurements, op, held)]
+    out["earlier_intact"] = held.ok and held.intact()
+    return out
+
+
+def _counts_form(pairs, form):
+    """the histogram argument in the forms a caller may hold it: dict, Counter, OrderedDict, numpy integer counts"""
+    import collections
+    if form == "Counter":
+        d = collections.Counter()
+        for kk, v in pairs:
+            d[kk] = v
+        return d
+    if form == "OrderedDict":
+        return collections.OrderedDict((kk, v) for kk, v in pairs)
+    if form == "np":
+        np = _mods()[0]
+        return {kk: np.int64(v) for kk, v in pairs}
+    return {kk: v for kk, v in pairs}
+
+
+def _counts_once(m, held):
     Measurements = _mods()[1]
     counts = m.get_counts()
-    out = {"counts": [[kk, int(v)] for kk, v in counts.items()]}
+    held.check()
+    out = {"counts": [[kk, int(v)] for kk, v in counts.items()], "is_dict": isinstance(counts, dict)}
     back = Measurements.from_counts(counts)
     out["arg_intact"] = [[kk, int(v)] for kk, v in counts.items()] == out["counts"]
     out["back"] = _strs(back.bitstrings)
     out["back_counts"] = [[kk, int(v)] for kk, v in back.get_counts().items()]
-    for kk in list(counts):  # poison the returned dict
-        counts[kk] += 3
-    counts["1" * (len(out["counts"][0][0]) if out["counts"] else 1)] = 977
+    held.poison_dict(counts, lambda v: v + 3)  # poison the returned dict
     return out
 
 
-def _obs_add_counts(m, pairs):
+def _obs_counts(m, held=None):
+    held = held if held is not None else _Held()
+    out = _counts_once(m, held)
+    if len(m.bitstrings) <= 40000:
+        out["again"] = [_counts_once(m, held)]
+    out["earlier_intact"] = held.ok and held.intact()
+    return out
+
+
+def _obs_add_counts(m, pairs, form=None):
     Measurements = _mods()[1]
-    arg = {kk: v for kk, v in pairs}
+    arg = _counts_form(pairs, form)
     m.add_counts(arg)
     fresh = Measurements.from_counts(arg)
     return {"bitstrings": _strs(m.bitstrings), "counts": [[kk, int(v)] for kk, v in m.get_counts().items()],
-            "from_counts": _strs(fresh.bitstrings), "arg_intact": [[kk, v] for kk, v in arg.items()] == [list(x) for x in pairs]}
+            "from_counts": _strs(fresh.bitstrings), "arg_intact": [[kk, int(v)] for kk, v in arg.items()] == [list(x) for x in pairs]}
 
 
-def _obs_dist(m):
+def _dist_once(m, held):
     d = m.get_distribution()
+    held.check()
     out = {"dist": [["".join(str(int(b)) for b in kk), _num(v)] for kk, v in d.distribution_dict.items()]}
-    for kk in list(d.distribution_dict):  # poison
-        d.distribution_dict[kk] = 0.123
+    held.poison_dict(d.distribution_dict, lambda v: 0.123)
+    return out
+
+
+def _obs_dist(m, held=None):
+    held = held if held is not None else _Held()
+    out = _dist_once(m, held)
+    if len(m.bitstrings) <= 40000:
+        out["again"] = [_dist_once(m, held)]
+    out["earlier_intact"] = held.ok and held.intact()
     return out
 
 
@@ -853,17 +1260,42 @@ def _obs_save(m):
             "bitstrings": ["".join(str(int(b)) for b in t) for t in data["bitstrings"]]}
 
 
-def _obs_freq(mm, marked, as_set, d):
-    before = list(d.items())
-    v = mm.get_expectation_value_from_frequencies(set(marked) if as_set else list(marked), d)
-    return {"value": _num(v), "is_float": isinstance(v, float), "arg_intact": before == list(d.items())}
+def _marked_form(marked, form):
+    if form == "set":
+        return set(marked)
+    if form == "frozenset":
+        return frozenset(marked)
+    if form == "tuple":
+        return tuple(marked)
+    return list(marked)
+
+
+def _obs_freq(mm, marked, form, d):
+    """asked twice with the very same `marked` and dict objects"""
+    arg = _marked_form(marked, "set" if form is True else form)
+    outs = []
+    for _ in range(2):
+        before = list(d.items())
+        v = mm.get_expectation_value_from_frequencies(arg, d)
+        outs.append({"value": _num(v), "is_float": isinstance(v, float), "arg_intact": before == list(d.items())})
+    out = outs[0]
+    out["again"] = outs[1:]
+    return out
 
 
 def _obs_parity_vec(np, pp, arr, marked):
-    before = arr.copy()
-    v = pp.check_parity_of_vector(arr, list(marked))
-    out = {"parity": [_num(x) for x in np.asarray(v).tolist()], "arg_intact": bool((before == arr).all())}
-    _poison_arrays([v])
+    held = _Held()
+    arg = list(marked)
+    outs = []
+    for _ in range(2):
+        before = arr.copy()
+        v = pp.check_parity_of_vector(arr, arg)
+        held.check()
+        outs.append({"parity": [_num(x) for x in np.asarray(v).tolist()], "arg_intact": bool((before == arr).all())})
+        held.poison_arrays([v])
+    out = outs[0]
+    out["again"] = outs[1:]
+    out["earlier_intact"] = held.ok and held.intact()
     return out
 
 
@@ -873,7 +1305,7 @@ QUERIES = ("counts", "dist", "ev", "parities", "save")
 def _apply(shadow, st):
     """effect of a mutation step of a history on the list of shots (plain list semantics)"""
     do = st["do"]
-    if do in ("replace", "new"):
+    if do in ("replace", "new", "assign"):
         return list(st["shots"])
     if do == "setitem":
         out = list(shadow)
@@ -888,70 +1320,120 @@ def _apply(shadow, st):
     return shadow
 
 
-def _subcase(c, st, shadow):
+OP_STEPS = ("op_coeff", "op_append", "op_pop", "op_swap")
+
+
+def _apply_op(terms, st):
+    """effect of an in-place edit of a PauliSum (its public `terms` list, a term's public `coefficient`)"""
+    terms = [dict(t) for t in terms]
+    do = st["do"]
+    if do == "op_coeff":
+        terms[st["term"]]["coeff"] = st["coeff"]
+    elif do == "op_append":
+        terms.append(dict(st["new"]))
+    elif do == "op_pop":
+        terms.pop(st["term"])
+    elif do == "op_swap":
+        terms[st["i"]], terms[st["j"]] = terms[st["j"]], terms[st["i"]]
+    return terms
+
+
+def _init_shots(c, j):
+    """the shots object j holds at the start, in the order it holds them"""
+    via = (c.get("init_via") or [])[j] if j < len(c.get("init_via") or []) else "list"
+    shots = list(c["init"][j])
+    if via in ("from_counts", "add_counts"):  # grouped by outcome, first occurrence first
+        return [kk for kk, v in Counter(shots).items() for _ in range(v)]
+    return shots
+
+
+def _subcase(st, shadow, ops_now):
     do = st["do"]
     if do == "ev":
-        return {"kind": "ev", "shots": list(shadow), "terms": c["operators"][st["op"]], "bessel": st["bessel"], "exact": False}
+        return {"kind": "ev", "shots": list(shadow), "terms": ops_now[st["op"]], "bessel": st["bessel"], "exact": False}
     if do == "parities":
-        return {"kind": "parities", "shots": list(shadow), "terms": c["operators"][st["op"]]}
+        return {"kind": "parities", "shots": list(shadow), "terms": ops_now[st["op"]]}
     if do in ("counts", "dist", "save"):
         return {"kind": do, "shots": list(shadow)}
     if do == "add_counts":
-        return {"kind": "add_counts", "shots": list(shadow), "counts": st["counts"]}
+        return {"kind": "add_counts", "shots": list(shadow), "counts": st["counts"], "counts_as": st.get("counts_as")}
     return None
 
 
 def _walk(c):
-    """yields (step index, step, sub-case judged on the shots the object holds at that moment or None)"""
-    shadows = [list(x) for x in c["init"]]
+    """yields (step index, step, sub-case judged on the shots the object holds - and on the terms the operator has - at
+    that moment, or None)"""
+    shadows = [_init_shots(c, j) for j in range(len(c["init"]))]
+    ops_now = [[dict(t) for t in terms] for terms in c["operators"]]
     for i, st in enumerate(c["steps"]):
         j = st.get("obj", 0)
-        sub = _subcase(c, st, shadows[j])
+        sub = _subcase(st, shadows[j], ops_now)
         yield i, st, sub
-        shadows[j] = _apply(shadows[j], st)
+        if st["do"] in OP_STEPS:
+            ops_now[st["op"]] = _apply_op(ops_now[st["op"]], st)
+        else:
+            shadows[j] = _apply(shadows[j], st)
 
 
 def _run_history(c):
     import gc
     np, Measurements, mm, pp, PauliSum, PauliTerm = _mods()
-    objs = [Measurements(_tuples(x)) for x in c["init"]]
-    ops = [_operator({"terms": t, "exact": False}, PauliSum, PauliTerm) for t in c["operators"]]  # reused objects
+    objs = []
+    for j, x in enumerate(c["init"]):
+        via = (c.get("init_via") or [])[j] if j < len(c.get("init_via") or []) else "list"
+        if via == "from_counts":
+            objs.append(Measurements.from_counts(dict(Counter(x))))
+        elif via == "add_counts":
+            m0 = Measurements()
+            m0.add_counts(dict(Counter(x)))
+            objs.append(m0)
+        else:
+            objs.append(Measurements(_tuples(x)))
+    ops = [_operator({"terms": t, "exact": False, "coef": c.get("coef")}, PauliSum, PauliTerm) for t in c["operators"]]  # reused objects
+    held = _Held()
     outs = []
     for st in c["steps"]:
         j = st.get("obj", 0)
         m = objs[j]
         do = st["do"]
+        o = None
         if do == "counts":
-            o = _guard(lambda: _obs_counts(m))
+            o = _guard(lambda: _obs_counts(m, held))
         elif do == "dist":
-            o = _guard(lambda: _obs_dist(m))
+            o = _guard(lambda: _obs_dist(m, held))
         elif do == "ev":
-            o = _guard(lambda: _obs_ev(m, ops[st["op"]], st["bessel"]))
+            o = _guard(lambda: _obs_ev(m, ops[st["op"]], st["bessel"], held))
         elif do == "parities":
-            o = _guard(lambda: _obs_parities(m.bitstrings, ops[st["op"]]))
+            o = _guard(lambda: _obs_parities(m.bitstrings, ops[st["op"]], held))
         elif do == "save":
             o = _guard(lambda: _obs_save(m))
         elif do == "add_counts":
-            o = _guard(lambda: _obs_add_counts(m, st["counts"]))
+            o = _guard(lambda: _obs_add_counts(m, st["counts"], st.get("counts_as")))
         elif do == "replace":
             m.bitstrings = _tuples(st["shots"])
-            o = None
+        elif do == "assign":  # the same list object gets other content
+            m.bitstrings[:] = _tuples(st["shots"])
         elif do == "setitem":
             m.bitstrings[st["index"]] = _tuples([st["shot"]])[0]
-            o = None
         elif do == "swap":
             del m.bitstrings[: st["drop"]]
             m.bitstrings += _tuples(st["shots"])
-            o = None
         elif do == "extend":
             m.bitstrings += _tuples(st["shots"])
-            o = None
         elif do == "new":  # the old object dies, a new one (possibly at the same address) takes its place
             objs[j] = None
             del m
             gc.collect()
             objs[j] = Measurements(_tuples(st["shots"]))
-            o = None
+        elif do == "op_coeff":  # the caller edits the operator it holds, in place
+            ops[st["op"]].terms[st["term"]].coefficient = float(unrat(st["coeff"]))
+        elif do == "op_append":
+            ops[st["op"]].terms.append(PauliTerm({int(q): l for q, l in st["new"]["ops"]}, float(unrat(st["new"]["coeff"]))))
+        elif do == "op_pop":
+            ops[st["op"]].terms.pop(st["term"])
+        elif do == "op_swap":
+            ts = ops[st["op"]].terms
+            ts[st["i"]], ts[st["j"]] = ts[st["j"]], ts[st["i"]]
         else:
             raise AssertionError("unknown step " + do)
         if isinstance(o, dict) and objs[j] is not None:
@@ -964,7 +1446,8 @@ def _fh_walk(c):
     cur = [list(x) for x in c["freq"]]
     for i, st in enumerate(c["steps"]):
         if st["do"] == "query":
-            yield i, st, {"kind": "freq", "marked": st["marked"], "freq": [list(x) for x in cur], "as_set": st.get("as_set", False)}
+            yield i, st, {"kind": "freq", "marked": st["marked"], "freq": [list(x) for x in cur], "as_set": st.get("as_set", False),
+                          "marked_as": st.get("marked_as")}
         else:
             yield i, st, None
             d = dict(map(tuple, cur))
@@ -972,6 +1455,10 @@ def _fh_walk(c):
                 d[st["key"]] = st["value"]
             elif st["do"] == "del":
                 d.pop(st["key"], None)
+            elif st["do"] == "rekey":  # the same weights in the same order, one outcome renamed
+                d = {(st["new"] if kk == st["key"] else kk): v for kk, v in d.items()}
+            elif st["do"] == "swap_values":  # the same outcomes, two weights exchanged
+                d[st["a"]], d[st["b"]] = d[st["b"]], d[st["a"]]
             cur = [[kk, v] for kk, v in d.items()]
 
 
@@ -987,6 +1474,21 @@ def _pv_walk(c):
             rows[st["row"]] = "".join(r)
 
 
+def _obs_bool_bits(c):
+    """shots whose bits are Python / numpy booleans (True == 1, False == 0), then the same shots with int bits"""
+    np, Measurements = _mods()[:2]
+    from orquestra.quantum import utils
+    clear = getattr(getattr(utils, "tuple_to_bitstring", None), "cache_clear", lambda: None)
+    clear()
+    ty = np.bool_ if c.get("numpy") else bool
+    try:
+        first = Measurements([tuple(ty(int(ch)) for ch in s) for s in c["shots"]]).get_counts()
+        second = Measurements(_tuples(c["shots"])).get_counts()
+        return {"bool": [[str(kk), int(v)] for kk, v in first.items()], "int_after": [[str(kk), int(v)] for kk, v in second.items()]}
+    finally:
+        clear()  # whatever was remembered for the boolean tuples must not reach the other cases of this run
+
+
 def run_impl(c):
     np, Measurements, mm, pp, PauliSum, PauliTerm = _mods()
     c = _norm(c)
@@ -999,12 +1501,20 @@ def run_impl(c):
         outs = []
         for st in c["steps"]:
             if st["do"] == "query":
-                outs.append(_guard(lambda: _obs_freq(mm, st["marked"], st.get("as_set", False), d)))
+                outs.append(_guard(lambda: _obs_freq(mm, st["marked"], st.get("marked_as") or st.get("as_set", False), d)))
             elif st["do"] == "set":
                 d[st["key"]] = st["value"]
                 outs.append(None)
             elif st["do"] == "del":
                 d.pop(st["key"], None)
+                outs.append(None)
+            elif st["do"] == "rekey":  # same dict object
+                items = [((st["new"] if kk == st["key"] else kk), v) for kk, v in d.items()]
+                d.clear()
+                d.update(items)
+                outs.append(None)
+            elif st["do"] == "swap_values":
+                d[st["a"]], d[st["b"]] = d[st["b"]], d[st["a"]]
                 outs.append(None)
             elif st["do"] == "copy":  # an equal dict at (possibly) the address of the old one
                 d2 = dict(d)
@@ -1029,13 +1539,15 @@ def run_impl(c):
     if k == "counts":
         return _guard(lambda: _obs_counts(Measurements(_tuples(c["shots"], npb))))
     if k == "add_counts":
-        return _guard(lambda: _obs_add_counts(Measurements(_tuples(c["shots"], npb)), c["counts"]))
+        return _guard(lambda: _obs_add_counts(Measurements(_tuples(c["shots"], npb)), c["counts"], c.get("counts_as")))
     if k == "dist":
         return _guard(lambda: _obs_dist(Measurements(_tuples(c["shots"], npb))))
     if k == "save":
         return _guard(lambda: _obs_save(Measurements(_tuples(c["shots"]))))
     if k == "freq":
-        return _guard(lambda: _obs_freq(mm, c["marked"], c.get("as_set"), {kk: v for kk, v in c["freq"]}))
+        return _guard(lambda: _obs_freq(mm, c["marked"], c.get("marked_as") or c.get("as_set"), _counts_form(c["freq"], c.get("freq_as"))))
+    if k == "bool_bits":
+        return _obs_bool_bits(c)
     if k == "parity_vec":
         return _guard(lambda: _obs_parity_vec(np, pp, np.array(_tuples(c["rows"]), dtype=int), c["marked"]))
     raise AssertionError("unknown kind")
@@ -1055,7 +1567,10 @@ def requests(c, out):
                 rs += requests(sub, out["steps"][i])
         return rs
     if k == "ev":
-        return [("expectation_values", {"shots": c["shots"], "terms": c["terms"], "bessel": c["bessel"]})]
+        rs = [("expectation_values", {"shots": c["shots"], "terms": c["terms"], "bessel": c["bessel"]})]
+        for o in (out.get("again") or []) if isinstance(out, dict) and "err" not in out else []:
+            rs.append(("expectation_values", {"shots": c["shots"], "terms": c["terms"], "bessel": o["bessel"]}))
+        return rs
     if k == "parities":
         return [("parities", {"shots": c["shots"], "terms": c["terms"]})]
     if k == "counts":
@@ -1133,6 +1648,21 @@ def compare(c, out, resp):
     for r in resp:
         if isinstance(r, dict) and "driver_error" in r:
             return "driver error: " + r["driver_error"]
+    k = c["kind"]
+    msg = _compare_one(c, out, resp)
+    if msg or "err" in out:
+        return msg
+    for idx, o in enumerate(out.get("again") or []):  # the repeated calls on the same objects
+        if k == "ev":
+            msg = _compare_one(dict(c, bessel=o["bessel"], exact=bool(c.get("exact")) and not o["bessel"]), o, resp[1 + idx:2 + idx])
+        else:
+            msg = _compare_one(c, o, resp)
+        if msg:
+            return f"call {idx + 2} on the same objects: {msg}"
+    return None
+
+
+def _compare_one(c, out, resp):
     k = c["kind"]
     r = resp[0]
     if isinstance(r, str) and (r.startswith("err:") or r == "nan"):  # the model predicts an exception (or NaN)
@@ -1232,8 +1762,10 @@ def _showc(z):
 
 def _describe(st):
     do = st["do"]
-    if do in ("replace", "new", "extend"):
+    if do in ("replace", "new", "extend", "assign"):
         return f"{do} with {len(st['shots'])} shots"
+    if do in OP_STEPS:
+        return f"the caller's operator {st['op']} edited in place ({do}: {dict((kk, v) for kk, v in st.items() if kk not in ('do', 'op'))})"
     if do == "setitem":
         return f"bitstrings[{st['index']}] = {st['shot']!r}"
     if do == "swap":
@@ -1281,6 +1813,38 @@ def oracle(c, out):
         return (f"{k}-unexpected-exception", f"{k}: implementation raised {out}")
     if k in WALKS:
         return _oracle_history(c, out)
+    if k == "bool_bits":  # True == 1 and False == 0: the shots are the bitstrings c["shots"]
+        want = dict(Counter(c["shots"]))
+        if dict(map(tuple, out["bool"])) != want:
+            return ("counts-bool-bits", f"get_counts on shots with boolean bits gives {out['bool']}, the shots are {want}")
+        if dict(map(tuple, out["int_after"])) != want:
+            return ("counts-value", f"get_counts on int bits after a call with boolean bits gives {out['int_after']}, the shots are {want}")
+        return None
+    r = _judge(c, out)
+    if r is not None or "err" in out:
+        return r
+    for idx, o in enumerate(out.get("again") or []):  # the same sentence on every repeated call with the very same objects
+        r = _judge(dict(c, bessel=o["bessel"]) if k == "ev" else c, o)
+        if r is not None:
+            flag = f", use_bessel_correction={o['bessel']}" if k == "ev" else ""
+            return (r[0], f"asked again on the very same objects (call {idx + 2}{flag}): {r[1]}")
+    if out.get("earlier_intact") is False and _in_domain(c):
+        return (f"{k}-earlier-result-overwritten", "a later call wrote into the arrays / dictionary an earlier call had handed out: "
+                "what was reported earlier is no longer what the statistics were")
+    return None
+
+
+def _in_domain(c):
+    k = c["kind"]
+    if k in ("ev", "parities"):
+        return _domain(c)[0] and len(c["shots"]) > 0
+    if k in ("counts", "dist"):
+        return len({len(s) for s in c["shots"]}) <= 1
+    return k == "parity_vec"
+
+
+def _judge(c, out):
+    k = c["kind"]
     if k == "save":
         shots = c["shots"]
         if "err" in out:
@@ -1362,6 +1926,17 @@ def oracle(c, out):
                 odd = len(shots) - even
                 if out["correlations"][i][j] != [rat(even), rat(odd)]:
                     return ("parities-pair", f"pair ({i},{j}): tallies {out['correlations'][i][j]}, expected {[even, odd]}")
+        if shots and "route_err" in out:
+            return ("parities-route-raises", f"get_expectation_values_from_parities raised on the tallies of {len(shots)} shots: {out['route_err']}")
+        if shots and "route" in out:  # the second route to the sample means: (even - odd) / shots from the tallies
+            if len(out["route"]) != nt:
+                return ("parities-route-shape", f"{nt} terms, {len(out['route'])} expectation values from the tallies")
+            for i in range(nt):
+                tot = sum(mult * (1 - 2 * (o % 2)) for (s, mult), o in zip(multi, ones[i]))
+                want = Fraction(tot, len(shots))
+                if out["route"][i] is None or abs(unrat(out["route"][i]) - want) > REL:
+                    return ("parities-route-value", f"term {i} (qubits {qs[i]}): the expectation value computed from the parity tallies is "
+                            f"{out['route'][i] if out['route'][i] is None else repr(float(unrat(out['route'][i])))}, the sample mean of the eigenvalue is {want}")
     elif k == "counts":
         shots = c["shots"]
         if "err" in out:
